@@ -149,4 +149,30 @@ def run(ctx, chk):
             chk.ob("C14.accumulate", "path %d: read += FINISHED result only" % k, ok, e.ins.loc(), fn=f.name, key="acc:%d:%s:%d" % (k, e.kind, e.ins.id),
                    detail="" if ok else bad[id(e)])
     chk.floor("C14.accumulate", "updates of read", ns, 20)
+    chk.rule("C14.insert-total", "an item decodes the same whatever follows it only if attaching a sub-item cannot fail for a reason of "
+                                 "its own: the insertion routines refuse only when an allocation failed, an overflow guard answered false "
+                                 "or a definite container is full (shared with C12.refusal-justified)")
+    from props.c12 import check_insert_refusal
+    import ownership as _O14
+    check_insert_refusal(chk, "C14.insert-total", prog, eff, _O14.PathCache(prog, eff))
+    chk.rule("C14.narrowing", "no 64-bit quantity is converted to a narrower integer type except to take one byte of it for the "
+             "output buffer or below a range test that makes the conversion lossless (the count of outstanding sub-items decides where an item ends; a count kept in 32 bits is "
+             "tracked modulo 2^32)")
+    import rules as _rn
+    _rn.check_narrowing(chk, "C14.narrowing", prog, eff=eff)
+    chk.rule("C14.no-access-after-free", "on every path of every library function (unit-internal helpers and the stack module inlined) no load or "
+             "store addresses a block after it was handed to the installed free, and no block is handed to it twice (what an item decodes to does not depend on what the allocator leaves in released blocks)")
+    from props.c06 import check_no_access_after_free
+    check_no_access_after_free(chk, "C14.no-access-after-free", prog, eff)
+    chk.rule("C14.automaton", "where an item ends is decided by the frame automaton of the tree builder: a completed container is handed to ITS parent, counters move as the table says (shared with C02.automaton)")
+    chk.rule("C14.record-items", "the item of every record unlinked from the decoding stack is released or handed on on that path "
+             "(shared with C06.record-items)")
+    import typestate as _tsA
+    import ownership as _OA
+    from props.c02 import check_automaton
+    from props.c06 import check_record_items
+    _H, _PA, _IFa, _xa = ctx.typestate()
+    _cacheA = _OA.PathCache(prog, eff)
+    check_automaton(chk, "C14.automaton", prog, eff, _cacheA, _tsA.CallSites(prog, eff, _cacheA, _H, _PA))
+    check_record_items(chk, "C14.record-items", prog, eff)
     chk.exhaustive = True
